@@ -212,7 +212,9 @@ type node struct {
 	depth  int
 }
 
-func collect(v any, parent any, key string, idx int, out *[]node) { collectD(v, parent, key, idx, 0, out) }
+func collect(v any, parent any, key string, idx int, out *[]node) {
+	collectD(v, parent, key, idx, 0, out)
+}
 
 func collectD(v any, parent any, key string, idx int, depth int, out *[]node) {
 	if parent != nil {
@@ -364,6 +366,18 @@ func probe(e *env, p *world.Peer) *verdict {
 		}
 	}
 	if replies == 1 {
+		// valid messages that make the stack publish events must return as well (an earlier
+		// message may have left the event bus locked)
+		for _, d := range []model.DatagramType{
+			p.Msg(model.CmdClassifierTypeReply, p.NM(), world.LocalNM(), false, p.DiscoveryRef, model.CmdType{NodeManagementUseCaseData: &model.NodeManagementUseCaseDataType{}}),
+			p.Msg(model.CmdClassifierTypeNotify, p.FA([]uint{1}, 3), e.cli.Address(), false, nil, model.CmdType{MeasurementListData: &model.MeasurementListDataType{}}),
+		} {
+			if v := inject(p, world.Encode(d)); v != nil {
+				v.sig = strings.Replace(v.sig, "C05/", "C05/probe-", 1)
+				return v
+			}
+		}
+		p.Cap.Drain()
 		return nil
 	}
 	// classification: did the peer talk itself out of the stack's device tree?
@@ -429,8 +443,14 @@ func runCase(e *env, log *caseLog) *verdict {
 	return nil
 }
 
-func TestMutatedMessages(t *testing.T) {
-	rapid.Check(t, world.Prop(func(t *rapid.T) {
+func TestMutatedMessages(t *testing.T) { rapid.Check(t, world.Prop(mutatedProp)) }
+
+// FuzzMutated (thorough): the same property driven by Go's coverage-guided fuzzer - the bytes are
+// rapid's choice stream, so the fuzzer mutates (template, mutation) choices rather than raw JSON.
+func FuzzMutated(f *testing.F) { f.Fuzz(rapid.MakeFuzz(world.Prop(mutatedProp))) }
+
+func mutatedProp(t *rapid.T) {
+	{
 		early := rapid.IntRange(0, 4).Draw(t, "beforeDiscovery") == 0
 		e := newEnv(early)
 		defer e.w.Teardown()
@@ -462,7 +482,7 @@ func TestMutatedMessages(t *testing.T) {
 		if v != nil {
 			world.Fail(t, v.sig, "%s\n case: %v\n messages:\n  %s", v.detail, descr, strings.Join(log.Messages, "\n  "))
 		}
-	}))
+	}
 }
 
 // TestReplayCase re-runs a saved case (replay file of a crash that killed the process).
